@@ -331,6 +331,9 @@ func check(x *explore.Exec, sc *Scn, r *result) {
 
 func scenarios(tier string, yield func(any) bool) {
 	sizes := []int{0, 1, 3, chunk + 1}
+	if !bigScenarios(yield) {
+		return
+	}
 	for _, peers := range []int{1, 2} {
 		for _, half := range []bool{true, false} {
 			for _, order := range []string{"client-first", "upstream-first", "both", "client-abort", "upstream-abort"} {
@@ -359,12 +362,30 @@ func scenarios(tier string, yield func(any) bool) {
 	}
 }
 
+// bigScenarios: a client stream longer than the matching limit in front of a matcher that is
+// decided only inside the last chunk below the limit, so that with any unaligned read the
+// matching buffer holds more than MaxMatchingBytes when the proxy takes over.
+func bigScenarios(yield func(any) bool) bool {
+	M := layer4.MaxMatchingBytes
+	for _, order := range []string{"client-first", "upstream-first"} {
+		for _, w := range []int{1, 2} {
+			if !yield(&Scn{C2U: M + chunk + 5, U2C: 1, Peers: 1, Order: order, Half: true, Need: M - 3, Writes: w}) {
+				return false
+			}
+		}
+	}
+	return true
+}
+
 func bounds(tier string, sc *Scn) (explore.Bounds, int) {
 	b := explore.DefaultBounds(1)
 	b[explore.KSched] = 4
 	b[explore.KRead] = 2
 	b[explore.KTime] = 0
 	tot := 2
+	if sc.C2U > layer4.MaxMatchingBytes && tier != "thorough" {
+		tot = 1
+	}
 	if sc.Peers == 1 && sc.Need == 1 && sc.Writes == 1 && ((sc.C2U == 3 && sc.U2C == 1) || (tier == "thorough" && sc.C2U <= 3 && sc.U2C <= 3)) {
 		tot = 3 // the full budget goes to one small exchange per close order and transport
 	}
@@ -378,7 +399,7 @@ func main() {
 	runner.Main(&runner.Harness{
 		ID:    "C03",
 		Level: "model_checking",
-		Rule:  "client->upstream and upstream->client payloads {0,1,3,chunk+1 bytes, position-coded} in 1-2 writes x who finishes first {client half-closes, upstreams half-close, both, client aborts, upstream aborts mid-stream} x 1 or 2 peers per upstream x upstream transport with/without half-close x matcher in front of the proxy needing 1 or 3 bytes (so the stream starts in the prefetch buffer); every interleaving of the handler's goroutines, client and upstream threads, every short read, within the joint deviation budget (delay bounding: every scheduling choice other than 'continue, else lowest thread id' costs one; 3 for the 3-byte/1-byte single-peer exchange of every close order and transport, 2 otherwise; +1 and a wider core in thorough)",
+		Rule:  "client->upstream and upstream->client payloads {0,1,3,chunk+1 bytes, position-coded} in 1-2 writes x who finishes first {client half-closes, upstreams half-close, both, client aborts, upstream aborts mid-stream} x 1 or 2 peers per upstream x upstream transport with/without half-close x matcher in front of the proxy needing 1 or 3 bytes (so the stream starts in the prefetch buffer), plus a client stream of limit+chunk+5 bytes behind a matcher needing limit-3 bytes (the matching buffer overshoots the limit under any unaligned read); every interleaving of the handler's goroutines, client and upstream threads, every short read, within the joint deviation budget (delay bounding: every scheduling choice other than 'continue, else lowest thread id' costs one; 3 for the 3-byte/1-byte single-peer exchange of every close order and transport, 2 otherwise; +1 and a wider core in thorough)",
 		Assumptions: []string{
 			"payload sizes up to one prefetch chunk + 1, not MiB; kernel socket buffers are unbounded in the virtual network",
 			"TLS-terminated downstream is covered for byte-exactness by C01, not here",
